@@ -11,7 +11,11 @@ except ImportError:
 def quadraticRoots(a, b, c):
     """Returns real roots of at^2 + bt + c = 0 if 0 < root < 1"""
     roots = []
-    if a != 0.0 and b * b - 4 * a * c > 0.0:
+    if abs(a) <= 1e-9 * abs(b):
+        # The quadratic term vanishes: bt + c = 0
+        if b != 0.0 and 0.0 <= -c / b <= 1.0:
+            roots.append(-c / b)
+    elif b * b - 4 * a * c > 0.0:
         x = -b / (2 * a)
         y = sqrt(b * b - 4 * a * c) / (2 * a)
         t1 = x - y
